@@ -331,6 +331,10 @@ inductive Item (C P : Type) where
 inductive Event (C P : Type) where
   | enqueue (items : List (Item C P))
   | recv (rid : Nat) (cid : C) (exp : List Nat) (pre : Bool)
+  /-- a receive that the harness holds between its first scan (unlock) and its `select`: no
+  wake-up transition of it is scheduled until `release` -/
+  | recvHeld (rid : Nat) (cid : C) (exp : List Nat)
+  | release (rid : Nat)
   | cancel (rid : Nat)
   | close
 
@@ -341,6 +345,8 @@ structure L2 (C P : Type) where
   started : Bool := false
   active : List (Nat × C) := []
   results : List (Nat × Nat × Result P) := []   -- rid, index of the event, outcome; newest first
+  /-- receives held before their `select` -/
+  held : List Nat := []
   /-- keys of the Go map `boxes` (see `boxesStep`) -/
   boxes : List C := []
   /-- `(buffered, number of mailbox objects)` after every event; newest first -/
@@ -367,6 +373,7 @@ def harvest (cfg : Config) (k rid : Nat) (cid : C) (l : L2 C P) : L2 C P :=
   else l
 
 def settleOne (cfg : Config) (k : Nat) (l : L2 C P) (a : Nat × C) : L2 C P :=
+  if a.1 ∈ l.held then l else
   match l.core.waiter a.2 with
   | some w =>
     if w.phase = .parked then
@@ -400,22 +407,26 @@ def pump (cfg : Config) (k : Nat) : Nat → L2 C P → L2 C P
 
 def pumpAll (cfg : Config) (k : Nat) (l : L2 C P) : L2 C P := pump cfg k (l.queue.length + 1) l
 
+def recvEvent (cfg : Config) (k : Nat) (l : L2 C P) (rid : Nat) (cid : C) (exp : List Nat) (pre hold : Bool) : L2 C P :=
+  let n0 := l.core.log.length
+  let fatal0 := l.core.fatal
+  let l1 := doStep cfg l (.attach cid exp)
+  let l1 := { l1 with started := l.started || fatal0.isNone }
+  if l1.core.log.length > n0 then
+    match l1.core.log with
+    | (_, r) :: _ => pumpAll cfg k { l1 with results := (rid, k, r) :: l1.results }
+    | [] => l1
+  else
+    let l2 := { l1 with active := l1.active ++ [(rid, cid)], held := if hold then rid :: l1.held else l1.held }
+    let l2 := if pre then doStep cfg l2 (.cancel cid) else l2
+    let l2 := harvest cfg k rid cid (doStep cfg l2 (.scan cid))
+    pumpAll cfg k l2
+
 def event (cfg : Config) (k : Nat) (l : L2 C P) : Event C P → L2 C P
   | .enqueue items => pumpAll cfg k { l with queue := l.queue ++ items }
-  | .recv rid cid exp pre =>
-    let n0 := l.core.log.length
-    let fatal0 := l.core.fatal
-    let l1 := doStep cfg l (.attach cid exp)
-    let l1 := { l1 with started := l.started || fatal0.isNone }
-    if l1.core.log.length > n0 then
-      match l1.core.log with
-      | (_, r) :: _ => pumpAll cfg k { l1 with results := (rid, k, r) :: l1.results }
-      | [] => l1
-    else
-      let l2 := { l1 with active := l1.active ++ [(rid, cid)] }
-      let l2 := if pre then doStep cfg l2 (.cancel cid) else l2
-      let l2 := harvest cfg k rid cid (doStep cfg l2 (.scan cid))
-      pumpAll cfg k l2
+  | .recv rid cid exp pre => recvEvent cfg k l rid cid exp pre false
+  | .recvHeld rid cid exp => recvEvent cfg k l rid cid exp false true
+  | .release rid => pumpAll cfg k { l with held := l.held.filter (· ≠ rid) }
   | .cancel rid =>
     match l.active.find? (fun a => a.1 = rid) with
     | some a => pumpAll cfg k (doStep cfg l (.cancel a.2))
